@@ -13,7 +13,8 @@ tamper   ["none"] | ["garble", pos, mask] | ["trunc", n] | ["extend"] | ["algo"]
 observation (one exchange):
   {"sent": {"kind": ..., "sealed": bool, "clear_args": bool} | "raised:<cls>",
    "deliver": [[which, args, kwargs, enc_algo], ...]      handler / endpoint invocations at B (which = uri it was attached to)
-   "reply":  {"kind": "Yield"|"Error", "sealed": bool, "clear_args": bool, "error": uri|null} | null
+   "reply":  {"kind": "Yield"|"Error", "sealed": bool, "clear_args": bool, "error": uri|null,
+              "args": [...], "kwargs": {...} (the clear fields as sent)} | null
    "outcome": ["ok", value] | ["err", cls, uri, args, kwargs] | ["pending"] | null (pub)
    "leaks": [kind of every wire message whose bytes contain a marker string],
    "plen": payload length (for the harness to enumerate positions), "router_errors": [...]}
@@ -263,7 +264,8 @@ def main():
                             "clear_args": bool(m.args) or bool(m.kwargs)}
                 if w["frm"] == "B" and w["kind"] in ("Yield", "Error"):
                     obs["reply"] = {"kind": w["kind"], "sealed": m.payload is not None and m.enc_algo == "cryptobox",
-                                    "clear_args": bool(m.args) or bool(m.kwargs), "error": getattr(m, "error", None)}
+                                    "clear_args": bool(m.args) or bool(m.kwargs), "error": getattr(m, "error", None),
+                                    "args": wampx.canon(list(m.args or [])), "kwargs": wampx.canon(dict(m.kwargs or {}))}
             obs["sent"] = sent
             if sc["dir"] != "pub" and not (isinstance(sent, str)):
                 if "ok" in cell:
